@@ -20,7 +20,7 @@ def measurement_case(draw, tier, kinds, with_ham=False, orthonormal=None, restri
     norb, nelec = draw(st.sampled_from(shapes[kind] if shapes else gens.shapes_for(kind, tier)))
     params = draw(gens.trial_params(kind, norb, nelec, orthonormal))
     if restricted_walker is None:
-        restricted = kind in gens.RESTRICTED_ONLY or (nelec[0] == nelec[1] and draw(st.integers(0, 3)) == 0)
+        restricted = kind in gens.RESTRICTED_ONLY or (nelec[0] == nelec[1] and draw(st.integers(0, 1 if kind == "multislater" else 3)) == 0)  # multislater: the restricted entry has its own reference handling
     else:
         restricted = restricted_walker
     w = draw(gens.walker(norb, nelec, restricted=restricted, frame=gens.reference_frame(kind, norb, nelec, params)))
@@ -107,6 +107,12 @@ class Setup:
         if self.nelec[1] == 0:
             c.append("empty-down-channel")
         c.append("walker:" + str(self.case["walker"].get("variant", "?")))
+        if self.kind == "multislater":
+            d0 = self.params["dets"][0]
+            na, nb = self.nelec
+            occ_a = [i for i, o in enumerate(d0[0]) if o]
+            occ_b = [i for i, o in enumerate(d0[1]) if o]
+            c.append("multislater-ref:" + ("beta-is-leading-part-of-alpha" if occ_b == occ_a[:nb] else "beta-differs-from-alpha") + (":restricted" if self.restricted else ":unrestricted"))
         return c
 
 
